@@ -15,9 +15,40 @@ SOURCES = {
     "range": ("(range_lo..range_hi).into_par()", "us", True),
     "iterx": ("IterIntoPar::par(Src::new(input.clone(), true))", "val", True),
     "iteru": ("IterIntoPar::par(Src::new(input.clone(), false))", "val", False),
-    "deque": ("VecDeque::from(input.clone()).into_par()", "val", True),
+    "deque": ("dq.into_par()", "val", True),
     "endless": ("IterIntoPar::par(Endless::new())", "val", False),
+    # std collections, borrowed and owned; the sequential iteration order is reported (effin)
+    "dequeref": ("dq.par()", "ref", True),
+    "btset": ("coll.par()", "ref", True),
+    "hashset": ("coll.par()", "ref", True),
+    "llist": ("coll.into_par()", "val", True),
+    "bheap": ("coll.par()", "ref", True),
+    # a cloning view of a slice iterator
+    "cloned": ("orx_concurrent_iter::IntoCloned::cloned(input.as_slice().into_con_iter()).into_par()", "val", True),
+    # concurrent iterators that have been advanced by c.pre elements before into_par()
+    "prevec": ("ci.into_par()", "val", True),
+    "preslice": ("ci.into_par()", "ref", True),
+    "preiterx": ("ci.into_par()", "val", True),
+    "preiteru": ("ci.into_par()", "val", False),
 }
+
+# statements executed before the parallel iterator is built
+PRELUDE = {
+    "deque": "let dq = wrapped_deque(&input);",
+    "dequeref": "let dq = wrapped_deque(&input); assert!(input.len() < 2 || !dq.as_slices().1.is_empty());",
+    "btset": "let coll: BTreeSet<i64> = input.iter().cloned().collect(); set_effin(coll.iter().cloned().collect());",
+    "hashset": "let coll: HashSet<i64> = input.iter().cloned().collect(); set_effin(coll.iter().cloned().collect());",
+    "llist": "let coll: LinkedList<i64> = input.iter().cloned().collect(); set_effin(coll.iter().cloned().collect());",
+    "bheap": "let coll: BinaryHeap<i64> = input.iter().cloned().collect(); set_effin(coll.iter().cloned().collect());",
+    "prevec": "let ci = input.clone().into_con_iter(); for _ in 0..c.pre { let _ = ci.next(); }",
+    "preslice": "let ci = input.as_slice().into_con_iter(); for _ in 0..c.pre { let _ = ci.next(); }",
+    "preiterx": "let ci = IterIntoConcurrentIter::into_con_iter(input.clone().into_iter()); for _ in 0..c.pre { let _ = ci.next(); }",
+    "preiteru": "let ci = IterIntoConcurrentIter::into_con_iter(input.clone().into_iter().filter(|_| true)); for _ in 0..c.pre { let _ = ci.next(); }",
+}
+EFFIN_SOURCES = ("btset", "hashset", "llist", "bheap")
+PRE_SOURCES = ("prevec", "preslice", "preiterx", "preiteru")
+# sources whose concurrent iterator is ConIterOfIter (ticket / handle protocol)
+ITER_SOURCES = ("iterx", "iteru", "deque", "endless", "dequeref", "btset", "hashset", "llist", "bheap", "preiterx", "preiteru")
 
 STAGES = "MFXO"
 
@@ -66,6 +97,10 @@ def chains_for(source):
         return out
     if source == "endless":
         return ["", "M", "F", "MF", "X", "O"]
+    if source in EFFIN_SOURCES or source in ("dequeref", "cloned"):
+        return ["", "M", "F", "X", "MF"]
+    if source in PRE_SOURCES:
+        return ["", "M", "F", "X", "O", "MF"]
     return ["", "M", "F", "X", "O", "MF", "FM", "XF", "OF", "FX", "XFM"]
 
 
@@ -140,6 +175,8 @@ def gen_shape(source, chain):
         lines.append("    let range_lo: usize = if input.is_empty() { 0 } else { input[0] as usize };")
         lines.append("    let range_hi: usize = range_lo + input.len();")
         lines.append("    for (k, x) in input.iter().enumerate() { assert!(*x == (range_lo + k) as i64, \"range source needs a contiguous input\"); }")
+    if source in PRELUDE:
+        lines.append("    " + PRELUDE[source])
     # item type after the chain
     t = ty
     stage_exprs = []
@@ -224,7 +261,8 @@ def main():
              "use orx_fixed_vec::FixedVec;",
              "use orx_fixed_vec::PinnedVec;",
              "use orx_fixed_vec::Collection;",
-             "use std::collections::VecDeque;",
+             "use std::collections::{BTreeSet, BinaryHeap, HashSet, LinkedList, VecDeque};",
+             "use orx_concurrent_iter::{ConcurrentIter, ConcurrentIterX, IntoConcurrentIter, IterIntoConcurrentIter};",
              ""]
     shapes = all_shapes()
     for src, ch in shapes:
